@@ -3,7 +3,7 @@
    Spec:  Spec/C11Spec.v (expected constraints, chain reader, JS string reading, oracle, domain, classes).
    Only statements, [exact], examples and [Print Assumptions] live here. *)
 From Coq Require Import String Ascii List Arith Bool.
-Require Import TT.Model.Str TT.Model.C11Validator TT.Spec.C11Spec TT.Proofs.C11Proofs TT.Proofs.C11Scan.
+Require Import TT.Model.Str TT.Model.C11Validator TT.Spec.C11Spec TT.Proofs.C11Proofs TT.Proofs.C11Scan TT.Proofs.C11Loop TT.Proofs.C11Esc.
 Import ListNotations.
 
 (* The full statement (NOT asserted here): for every f64 printing function, every in-domain field whose literal
@@ -55,14 +55,14 @@ Theorem C11_exact_render_arrays_partial : forall v k, va_ok v = true ->
 Proof. exact render_exact_arrays. Qed.
 
 (* scanning half on the sub-domain of CANONICAL single validators: one #[validate(length(..))] or
-   #[validate(range(..))] whose arguments are any subset of min, max, message in that order; bounds are any
+   #[validate(range(..))] whose arguments are any subset of min, max, message in ANY of the six orders (o); bounds are any
    number texts (digits . e E + -), the message literal is "body" with a body of arbitrary bytes (multi-byte
    included) free of double quote, backslash, closing parenthesis and the seven keywords.
    On the printed token string the scanners return exactly the declared components: no panic, bounds = the
    numeric parse applied to the declared literal text, message = the declared body, email = url = false,
    the other constraint absent. dispf (f64 parse + Display) is arbitrary. *)
-Theorem C11_exact_scan_partial : forall dispf r omin omax omsg, okn omin -> okn omax -> okm omsg ->
-  parse_validator_attributes dispf [AValidate [canon_item r (canon_args omin omax omsg)]] =
+Theorem C11_exact_scan_partial : forall dispf r o omin omax omsg, okn omin -> okn omax -> okm omsg ->
+  parse_validator_attributes dispf [AValidate [canon_item r (canon_args o omin omax omsg)]] =
   Ok (Some (let c := {| c_min := onum (if r then dispf else parse_u64) omin;
                         c_max := onum (if r then dispf else parse_u64) omax; c_msg := omsg |} in
             {| v_length := if r then None else Some c; v_range := if r then Some c else None;
@@ -71,21 +71,57 @@ Proof. exact scan_exact_canon. Qed.
 
 (* both halves composed on that sub-domain, for String / numeric / Vec<String> fields under k Options:
    the emitted chain reads back as exactly min / max (printed bound of the declared literal) with the declared message *)
-Theorem C11_exact_canon_partial : forall dispf k omin omax omsg, okn omin -> okn omax -> okm omsg ->
+Theorem C11_exact_canon_partial : forall dispf k o omin omax omsg, okn omin -> okn omax -> okm omsg ->
   (va_ok (canon_va dispf false omin omax omsg) = true ->
-   exists chain, field_chain dispf (canon_field (opt_ty k TyString) false omin omax omsg)
+   exists chain, field_chain dispf (canon_field (opt_ty k TyString) false o omin omax omsg)
                    = Ok (Some (canon_va dispf false omin omax omsg), chain) /\
      read_chain chain = Some (Sch (L "z.string") [] (cstr_meths (canon_cstr dispf false omin omax omsg) ++ repeat MOptional k))) /\
   (va_ok (canon_va dispf true omin omax omsg) = true ->
-   exists chain, field_chain dispf (canon_field (opt_ty k TyNum) true omin omax omsg)
+   exists chain, field_chain dispf (canon_field (opt_ty k TyNum) true o omin omax omsg)
                    = Ok (Some (canon_va dispf true omin omax omsg), chain) /\
      read_chain chain = Some (Sch (L "z.coerce.number") [] (cstr_meths (canon_cstr dispf true omin omax omsg) ++ repeat MOptional k))) /\
   (va_ok (canon_va dispf false omin omax omsg) = true ->
-   exists chain, field_chain dispf (canon_field (opt_ty k (TyVec TyString)) false omin omax omsg)
+   exists chain, field_chain dispf (canon_field (opt_ty k (TyVec TyString)) false o omin omax omsg)
                    = Ok (Some (canon_va dispf false omin omax omsg), chain) /\
      read_chain chain = Some (Sch (L "z.array") [Sch (L "z.string") [] []]
                                   (cstr_meths (canon_cstr dispf false omin omax omsg) ++ repeat MOptional k))).
 Proof. exact exact_canon. Qed.
+
+(* several validators per attribute and several attributes per field: for ANY list of attributes, in any
+   order, each being  #[validate(flags.., length|range(args in any order), flags..)]  (flags = email / url, any
+   number, before and after),  #[validate(flags..)] / #[validate()],  #[validate]  or a non-validate attribute:
+   parse_validator_attributes does not panic and returns the left fold of the per-attribute effects
+   (lr_effect: the declared length/range replaces the slot of its kind, the other slot and the flags are kept;
+   flags_effect: flags are or-ed in) - Some iff a validate attribute is present *)
+Theorem C11_loop_exact_partial : forall dispf ss, Forall sattr_ok ss ->
+  parse_validator_attributes dispf (map attr_of ss) =
+  Ok (if existsb is_val ss then Some (fold_left (effect dispf) ss va_init) else None).
+Proof. exact loop_exact. Qed.
+
+(* later attributes only add (the loop of parse_validator_attributes; seeds C11-1 / C11-4 break exactly this):
+   attributes that declare no length leave the length parsed so far untouched, same for range, and
+   email / url once set stay set *)
+Theorem C11_later_attrs_only_add : forall dispf ss1 ss2, Forall sattr_ok (ss1 ++ ss2) -> existsb is_val ss1 = true ->
+  exists v1 v, parse_validator_attributes dispf (map attr_of ss1) = Ok (Some v1) /\
+               parse_validator_attributes dispf (map attr_of (ss1 ++ ss2)) = Ok (Some v) /\
+    (existsb declares_length ss2 = false -> v_length v = v_length v1) /\
+    (existsb declares_range ss2 = false -> v_range v = v_range v1) /\
+    (v_email v1 = true -> v_email v = true) /\ (v_url v1 = true -> v_url v = true).
+Proof. exact later_attrs_only_add. Qed.
+
+(* message literals WITH escapes. Sub-language (lit_ok): the body is a sequence of plain bytes (anything but
+   backslash and double quote, multi-byte included) and the escapes backslash + double quote / single quote /
+   n / t / backslash, where an escaped backslash is not directly followed by a plain n, t or single quote
+   (n, t: class C11-6). On it the five sequential replace calls compute exactly the literal's value ... *)
+Theorem C11_unescape_exact_partial : forall l, lit_ok l = true -> unescape (text l) = value l.
+Proof. exact unescape_atoms. Qed.
+(* ... and parse_message returns that value wherever the literal stands in the content, whatever follows it.
+   OUT of the sub-language: backslash r / 0 / x.. / u{..} / line continuation and raw strings (class C11-6,
+   refuted), and an escaped backslash before a plain single quote (right value, not proved) *)
+Theorem C11_message_escapes_partial : forall T P l R,
+  fs (L "message") T = Some (P, L " = " ++ dq :: text l ++ dq :: R) ->
+  lit_ok l = true -> parse_message T = Ok (Some (value l)).
+Proof. exact parse_message_atoms. Qed.
 
 (* the run-time oracle decides exactly this proposition (C11_holds: reads as a schema of the right base, nothing
    nested carries a constraint, own methods = expected constraints kind by kind with equal exact decimals and
@@ -173,8 +209,22 @@ Proof. exact (C11_not_misattached dispf_small [g1; w1; g2] [w3; w2; g2] 2 g2 eq_
 Definition ex_body : str := L "Name: 1 (a, b = c '" ++ e_acute.
 Example C11_ex_canon_premises :
   okn (Some (L "1")) /\ okn (Some (L "2.5e3")) /\ okm (Some ex_body) /\
-  (let f := canon_field (opt_ty 1 TyString) false (Some (L "1")) (Some (L "50")) (Some ex_body) in
+  (let f := canon_field (opt_ty 1 TyString) false 3 (Some (L "1")) (Some (L "50")) (Some ex_body) in
    in_domain f && lits_consistent f && negb (kf_any dispf_small f) && va_ok (canon_va dispf_small false (Some (L "1")) (Some (L "50")) (Some ex_body))) = true.
+Proof. repeat split; vm_compute; reflexivity. Qed.
+
+(* the shape of the seeded regressions: #[validate(length(min = 6, max = 254))] then #[validate(email)] *)
+Example C11_ex_loop :
+  let ss := [SLr [] false 0 (Some (L "6")) (Some (L "254")) None []; SOther; SFlags [FE]; SPath] in
+  Forall sattr_ok ss /\
+  parse_validator_attributes dispf_small (map attr_of ss) =
+    Ok (Some {| v_length := Some {| c_min := Some (L "6"); c_max := Some (L "254"); c_msg := None |};
+                v_range := None; v_email := true; v_url := false |}).
+Proof. split; [repeat constructor; vm_compute; reflexivity|vm_compute; reflexivity]. Qed.
+
+Example C11_ex_escapes :
+  let l := [Plain "a"; Esc dq; Plain "b"; Esc dq; Plain " "; Esc bs; Plain " "; Esc "n"; Esc "t"; Esc sq; Esc bs; Esc "n"] in
+  lit_ok l = true /\ text l = L "a\""b\"" \\ \n\t\'\\\n" /\ value l = L "a""b"" \ " ++ [nl; tab; sq; bs; nl].
 Proof. repeat split; vm_compute; reflexivity. Qed.
 
 Print Assumptions C11_escape_roundtrip.
@@ -183,6 +233,10 @@ Print Assumptions C11_array_elements_bare.
 Print Assumptions C11_exact_render_arrays_partial.
 Print Assumptions C11_exact_scan_partial.
 Print Assumptions C11_exact_canon_partial.
+Print Assumptions C11_loop_exact_partial.
+Print Assumptions C11_later_attrs_only_add.
+Print Assumptions C11_unescape_exact_partial.
+Print Assumptions C11_message_escapes_partial.
 Print Assumptions C11_oracle_exact.
 Print Assumptions C11_none.
 Print Assumptions C11_not_misattached.
